@@ -81,6 +81,10 @@ func UnmarshalIdentifiers(payload []byte, schema *Schema) (Identifiers, error) {
 	idens := make([]Identifier, len(raw))
 
 	for i, r := range raw {
+		if r == nil {
+			return nil, errors.New("identifier is null")
+		}
+
 		iden, err := UnmarshalIdentifier(*r, schema)
 		if err != nil {
 			return nil, err
